@@ -40,3 +40,99 @@ package remote
 //@   loop 2
 //@     invariant rangeindex >= -1
 //@     invariant decoded(envelope)
+
+// ---------------------------------------------------------------------------
+// Outbound encoding (C15): streamWriter.Invoke builds three lookup tables
+// (type names, senders, targets) and one Message per envelope of the batch.
+// tblS / tblP: the map is exactly the inverse of the slice (index of every
+// entry, every key is some entry's key).
+
+//@ pred pidkey(p) := hk(p.Address + p.ID)
+//@ pred tblS(m, sl) := m != nil && len(m) == len(sl) && forall(i, 0 <= i && i < len(sl) ==> has(m, sl[i]) && m[sl[i]] == i) &&
+//@      forallS("Str", k, has(m, k) ==> 0 <= m[k] && m[k] < len(sl) && sl[m[k]] == k)
+//@ pred tblP(m, sl) := m != nil && len(m) == len(sl) && forall(i, 0 <= i && i < len(sl) ==> sl[i] != nil && has(m, pidkey(sl[i])) && m[pidkey(sl[i])] == i) &&
+//@      forallS("Int", k, has(m, k) ==> 0 <= m[k] && m[k] < len(sl) && pidkey(sl[m[k]]) == k)
+
+//@ func lookupTypeName(m, name, types)
+//@   props C15
+//@   requires tblS(m, types)
+//@   modifies mapof(m), elements(types)
+//@   ensures[C15.lookup.type.index] 0 <= result0 && result0 < len(result1) && result1[result0] == name
+//@   ensures[C15.lookup.type.table] tblS(m, result1) && (result1.arr == types.arr || fresh(result1))
+//@   ensures[C15.lookup.type.earlier-entries-kept] len(result1) >= len(types) && len(result1) <= len(types) + 1 && forall(i, 0 <= i && i < len(types) ==> result1[i] == old(types[i]))
+
+//@ func lookupPIDs(m, pid, pids)
+//@   props C15
+//@   requires tblP(m, pids)
+//@   modifies mapof(m), elements(pids)
+//@   ensures[C15.lookup.pid.index] pid != nil ==> 0 <= result0 && result0 < len(result1) && pidkey(result1[result0]) == pidkey(pid)
+//@   ensures[C15.lookup.pid.by-value@address-and-id-split-differently] pid != nil ==> result1[result0].Address == pid.Address && result1[result0].ID == pid.ID
+//@   ensures[C15.lookup.pid.nil-is-index-zero-without-entry] pid == nil ==> result0 == 0 && result1 == pids
+//@   ensures[C15.lookup.pid.table] tblP(m, result1) && (result1.arr == pids.arr || fresh(result1))
+//@   ensures[C15.lookup.pid.earlier-entries-kept] len(result1) >= len(pids) && len(result1) <= len(pids) + 1 && forall(i, 0 <= i && i < len(pids) ==> result1[i] == old(pids[i]))
+
+// tnameof / ser name what a serializer produces for a payload; deser (above)
+// and the protobuf library are assumed inverse on serialisable payloads.
+//@ ghost func tnameof(Iface) Str
+//@ ghost func ser(Iface) Slice
+//@ event StreamSend(stream Iface, env Ref as *Envelope)
+
+//@ func (Serializer).TypeName(msg)
+//@   abstract
+//@   pure
+//@   ensures result == tnameof(msg)
+
+//@ func (Serializer).Serialize(msg) (data, err)
+//@   abstract
+//@   modifies
+//@   ensures isnil(err) ==> data == ser(msg)
+
+//@ func (DRPCRemote_ReceiveStream).Send(env)
+//@   abstract
+//@   modifies
+//@   emits StreamSend(self, env)
+
+// The protobuf serializer: for EVERY payload (also one that is not a protobuf
+// message) TypeName and Serialize return normally.
+//@ func (ProtoSerializer).TypeName(msg)
+//@   props C15
+//@   nopanic[C15.serializer.typename-never-panics]
+//@   modifies
+
+//@ func (ProtoSerializer).Serialize(msg)
+//@   props C15
+//@   nopanic[C15.serializer.serialize-never-panics]
+//@   modifies
+
+//@ pred sdOf(e) := e.Msg.(*streamDeliver)
+//@ pred encodes(mg, sd, typeNames, senders, targets) := mg != nil && 0 <= mg.TypeNameIndex && mg.TypeNameIndex < len(typeNames) && typeNames[mg.TypeNameIndex] == tnameof(sd.msg) &&
+//@      0 <= mg.TargetIndex && mg.TargetIndex < len(targets) && pidkey(targets[mg.TargetIndex]) == pidkey(sd.target) &&
+//@      (sd.sender != nil ==> 0 <= mg.SenderIndex && mg.SenderIndex < len(senders) && pidkey(senders[mg.SenderIndex]) == pidkey(sd.sender)) &&
+//@      (sd.sender == nil ==> mg.SenderIndex == 0) && mg.Data == ser(sd.msg)
+
+//@ func (*streamWriter).Invoke(msgs)
+//@   props C15
+//@   requires s != nil && !isnil(s.serializer) && !isnil(s.stream) && !isnil(s.rawconn) && s.conn != nil
+//@   requires forall(k, 0 <= k && k < len(msgs) ==> istype(msgs[k].Msg, *streamDeliver) && sdOf(msgs[k]) != nil && sdOf(msgs[k]).target != nil)
+//@   nopanic[C15.writer.nopanic]
+//@   modifies log, loglen
+//@   ghost at entry: mp = arbitrary("(Array Int Int)"); nerr = 0
+//@   ghost at call Error#1: nerr = nerr + 1
+//@   ghost at call append#1 before: mp = store(mp, len(messages), i)
+//@   ghost at call Send#1 before: assert[C15.writer.envelope-carries-the-tables] arg0 != nil && arg0.Senders == senders && arg0.Targets == targets && arg0.TypeNames == typeNames && arg0.Messages == messages
+//@   ghost at call Send#1 before: assert[C15.writer.every-message-encoded-in-batch-order] forall(q, 0 <= q && q < len(messages) ==> 0 <= mp[q] && mp[q] < len(msgs) && encodes(messages[q], sdOf(msgs[mp[q]]), typeNames, senders, targets)) &&
+//@        forall(q1, q2, 0 <= q1 && q1 < q2 && q2 < len(messages) ==> mp[q1] < mp[q2])
+//@   ghost at call Send#1 before: assert[C15.writer.dropped-only-on-serialize-error-and-without-placeholder] len(messages) + nerr == len(msgs) && forall(q, 0 <= q && q < len(messages) ==> messages[q] != nil)
+//@   ghost at call Send#1 before: assert[C15.writer.senderless-message-arrives-without-sender@nil-sender-in-a-batch-with-senders] forall(q, 0 <= q && q < len(messages) ==> sdOf(msgs[mp[q]]).sender != nil || len(senders) == 0)
+//@   ghost at call Send#1: assert[C15.writer.one-envelope-per-batch] loglen == entry(loglen) + 1
+//@   loop 1
+//@     invariant 0 <= i && i <= len(msgs) && len(messages) + nerr == i && nerr >= 0 && fresh(messages) && loglen == entry(loglen)
+//@     invariant s != nil && !isnil(s.serializer) && !isnil(s.stream) && !isnil(s.rawconn) && s.conn != nil
+//@     invariant tblS(typeLookup, typeNames) && tblP(senderLookup, senders) && tblP(targetLookup, targets) && fresh(typeLookup) && fresh(senderLookup) && fresh(targetLookup)
+//@     invariant fresh(typeNames) && fresh(senders) && fresh(targets) && typeNames.arr != messages.arr && senders.arr != targets.arr && senders.arr != messages.arr && targets.arr != messages.arr
+//@     invariant forall(k, 0 <= k && k < len(msgs) ==> msgs[k] == old(msgs[k]) && istype(msgs[k].Msg, *streamDeliver) && sdOf(msgs[k]) != nil && sdOf(msgs[k]).target != nil)
+//@     invariant[C15.writer.loop.positions] forall(q, 0 <= q && q < len(messages) ==> messages[q] != nil && fresh(messages[q]) && 0 <= mp[q] && mp[q] < i) && forall(q1, q2, 0 <= q1 && q1 < q2 && q2 < len(messages) ==> mp[q1] < mp[q2])
+//@     invariant[C15.writer.loop.type] forall(q, 0 <= q && q < len(messages) ==> 0 <= messages[q].TypeNameIndex && messages[q].TypeNameIndex < len(typeNames) && typeNames[messages[q].TypeNameIndex] == tnameof(sdOf(msgs[mp[q]]).msg) && messages[q].Data == ser(sdOf(msgs[mp[q]]).msg))
+//@     invariant[C15.writer.loop.target] forall(q, 0 <= q && q < len(messages) ==> 0 <= messages[q].TargetIndex && messages[q].TargetIndex < len(targets) && pidkey(targets[messages[q].TargetIndex]) == pidkey(sdOf(msgs[mp[q]]).target))
+//@     invariant[C15.writer.loop.sender] forall(q, 0 <= q && q < len(messages) ==> (sdOf(msgs[mp[q]]).sender != nil ==> 0 <= messages[q].SenderIndex && messages[q].SenderIndex < len(senders) && pidkey(senders[messages[q].SenderIndex]) == pidkey(sdOf(msgs[mp[q]]).sender)) && (sdOf(msgs[mp[q]]).sender == nil ==> messages[q].SenderIndex == 0))
+//@     modifies elements(messages), mapof(typeLookup), mapof(senderLookup), mapof(targetLookup), elements(typeNames), elements(senders), elements(targets)
